@@ -69,6 +69,8 @@ def detect(d, tier="quick"):
         return {"id": tag, "property": prop, "exit": rc, "lines": lines[:6]}
     finally:
         drop(wt)
+        import shutil
+        shutil.rmtree("/verif/coq_other/" + wt.strip("/").replace("/", "_"), ignore_errors=True)
 
 
 def matrix():
